@@ -20,7 +20,7 @@ func TestMain(m *testing.M) { kit.Main(m) }
 
 const rule = "providers with custom / default / empty-custom names (several per type) x consumers whose single-valued fields (*T, interface, any) request a name that is present+compatible, absent, present+incompatible or a default package/type name, required or optional, pre-filled with a sentinel, next to other fields; plus duplicate-name registration attempts; oracle: compatible -> exactly that component, otherwise error iff required and sentinel untouched when optional; non-trivial = the named point has >=2 providers assignable to its type, or takes the absent / incompatible branch; distinct by scenario shape"
 
-var kinds = []int{0, 0, 1, 2, 3, 5, 7, 8, 11, 11, 11, 12, 16, 16, 17, 17, 18, 22, 22} // 16 = PNE (by-name points inside an unexported embedded struct); 17, 18 = PA, PB of ANOTHER package that is also called zoo
+var kinds = []int{0, 0, 1, 2, 3, 5, 7, 8, 11, 11, 11, 12, 16, 16, 17, 17, 18, 22, 22, 23, 23} // 16 = PNE (by-name points inside an unexported embedded struct); 17, 18 = PA, PB of ANOTHER package that is also called zoo
 var names = []string{"n1", "n2", "n3", "n4", "n5"}
 
 const zooPkg = "verif/harness/zoo/"
@@ -124,6 +124,12 @@ func TestByName(t *testing.T) {
 		}
 		s.Finish(t)
 		in := s.Instantiate()
+		switch rapid.IntRange(0, 3).Draw(t, "observer") {
+		case 0: // observing post-processors sorted in front of the built-in wiring processors
+			in.Extra = append(in.Extra, &graph.PriorityObsPP{ObsPP: graph.ObsPP{Tag: "c07p", Log: in.Log, NoBudget: true}})
+		case 1:
+			in.Extra = append(in.Extra, &graph.OrderedObsPP{ObsPP: graph.ObsPP{Tag: "c07o", Log: in.Log, OrderV: 1, NoBudget: true}})
+		}
 		// pre-fill every named field with a sentinel
 		sent := map[uintptr]map[int]any{}
 		for k, c := range s.Cons {
